@@ -165,7 +165,7 @@ def run(ctx):
                                   {"stderr": e.stderr[-1500:]}, files={"doc.py": text})
                 vh = VH(vh_bin())
             ctx.nontrivial(("doc", label.rstrip("0123456789_")))
-            if i < n_srv or label in ("chain_1500", "nested_150", "long_line", "many_lines", "inlay_targets") or \
+            if i < n_srv or label in ("chain_1500", "nested_150", "long_line", "many_lines", "inlay_targets", "diamond_ladder_40") or \
                     (label.startswith("typing_") and hash_str(label) % 5 == 0):
                 server_doc_session(ctx, label, text, ctx.rng)
         ctx.sample({"doc": docs[0][0], "text": docs[0][1][:300]})
